@@ -7,7 +7,7 @@ cp "$WT/demo.py" "$D/demo.py"
 cd "$WT" || exit 2
 echo "--- tests with change"; /venv/bin/python -m pytest -q -p no:cacheprovider -x 2>&1 | tail -1
 echo "--- demo with change"; /venv/bin/python demo.py > /tmp/demo_with.out 2>&1; RC1=$?; echo "rc=$RC1"; tail -2 /tmp/demo_with.out
-git stash -q
+git apply -R "$D/patch.diff"
 echo "--- demo without change"; /venv/bin/python demo.py > /tmp/demo_without.out 2>&1; RC2=$?; echo "rc=$RC2"; tail -1 /tmp/demo_without.out
-git stash pop -q
+git apply "$D/patch.diff"
 echo "property=$PROP demo_with_rc=$RC1 demo_without_rc=$RC2" > "$D/verify.txt"
